@@ -444,6 +444,50 @@ func runC12(c *fw.Ctx) {
 			}
 		}
 	}
+	// ---- (a'') a portion literal with a zero denominator — every spelling, zero numerators included — at every position a portion can stand ----
+	zeroDen := []string{"0/0", "1/0", "7/0", "00/0", "0/00", "0 / 0", "0/ 0", "0 /0", "000/000", "12/00", "100000000000000000000/0", "0/0000000000000000000000"}
+	for ti, text := range zeroDen {
+		for pos := 0; pos < 6; pos++ {
+			id := "zero-denominator/" + itoa(ti) + "/" + itoa(pos)
+			if !c.Want(950_000_0+ti*10+pos, id) {
+				continue
+			}
+			lit := func() gen.Allot { return &gen.AllotLit{Lit: &gen.Ratio{Text: text}} }
+			half := func() gen.Allot { return &gen.AllotLit{Lit: &gen.Ratio{Text: "1/2"}} }
+			send := &gen.Send{Sent: &gen.SentValue{E: gen.M("USD", "10")}, Src: gen.SA("world"), Dst: gen.DA("x")}
+			sc := &gen.Script{Stmts: []gen.Stmt{send}}
+			classes := []string{model.EBadPortion}
+			switch pos {
+			case 0: // first destination share, next to `remaining`
+				send.Dst = &gen.DstAllot{Items: []*gen.DstAllotItem{{A: lit(), To: gen.To(gen.DA("x"))}, {A: &gen.AllotRemaining{}, To: gen.To(gen.DA("y"))}}}
+			case 1: // destination share without `remaining` (the sum is wrong as well)
+				send.Dst = &gen.DstAllot{Items: []*gen.DstAllotItem{{A: lit(), To: gen.To(gen.DA("x"))}, {A: half(), To: gen.To(gen.DA("y"))}}}
+				classes = append(classes, model.EAllotmentSum)
+			case 2: // source share
+				send.Src = &gen.SrcAllot{Items: []*gen.SrcAllotItem{{A: lit(), From: gen.SA("world")}, {A: &gen.AllotRemaining{}, From: gen.SA("world")}}}
+			case 3: // a value of its own
+				sc.Stmts = []gen.Stmt{&gen.Call{Name: "set_tx_meta", Args: []gen.Expr{gen.S("k"), &gen.Ratio{Text: text}}}, send}
+			case 4: // after a valid share, `remaining kept` last
+				send.Dst = &gen.DstAllot{Items: []*gen.DstAllotItem{{A: half(), To: gen.To(gen.DA("x"))}, {A: lit(), To: gen.To(gen.DA("y"))}, {A: &gen.AllotRemaining{}, To: gen.Kept()}}}
+			case 5: // share of a nested allotment inside an ordered destination
+				send.Dst = &gen.DstInorder{Clauses: []*gen.DstClause{{Cap: gen.M("USD", "4"), To: gen.To(&gen.DstAllot{Items: []*gen.DstAllotItem{{A: lit(), To: gen.To(gen.DA("x"))}, {A: &gen.AllotRemaining{}, To: gen.To(gen.DA("y"))}}})}}, Remaining: gen.To(gen.DA("z"))}
+			}
+			cs := mkCase(sc, nil, nil)
+			e, ok := run(c, cs)
+			if !ok {
+				continue
+			}
+			c.Count("zero_denominator_literals", 1)
+			if e.out.Panicked {
+				c.Violation("panic:"+e.out.Frame, fmt.Sprintf("portion literal %q: panic %s", text, e.out.PanicVal), e.input())
+				return
+			}
+			if e.out.OK() || !in(classes, e.out.Class) {
+				c.Violation("wrong-outcome:zero-denominator", fmt.Sprintf("portion literal %q (position %d): expected an invalid-portion error, got %s", text, pos, e.out.Summary()), e.input())
+				return
+			}
+		}
+	}
 	// ---- (b) store-fault enumeration ----
 	scfg := with(func(l *gen.LCfg) { l.POriginVar, l.PAbsent, l.MaxStmts = 50, 5, 3 })
 	n = c.N(20000, 400000)
